@@ -476,6 +476,53 @@ const DIVOPS: &[&str] = &["/", "divmod", "mod", "modpow"];
 
 pub fn run_c06(ctx: &mut Ctx) {
     let ops: Vec<OpDef> = DIVOPS.iter().map(|n| op_by_name(n)).collect();
+    // directed: all pairs of machine-word boundary values through div/divmod/mod,
+    // and boundary triples through modpow
+    {
+        let b = crate::genr::boundary_ints();
+        let mut id = 0u64;
+        for (oi, op) in ops.iter().enumerate() {
+            for (i, x) in b.iter().enumerate() {
+                let cid = crate::report::DIRECTED | id;
+                id += 1;
+                if !ctx.want(cid) {
+                    continue;
+                }
+                let mut r = ctx.rng(cid);
+                for (j, y) in b.iter().enumerate() {
+                    let mut f = Forest::new();
+                    let xs = f.atom(x);
+                    let ys = f.atom(y);
+                    let args = if op.name == "modpow" {
+                        let e = f.atom(&b[(i * 7 + j * 3 + oi) % b.len()]);
+                        f.list(&[xs, e, ys])
+                    } else {
+                        f.list(&[xs, ys])
+                    };
+                    for base in [ClvmFlags::empty(), ClvmFlags::NEW_COST_MODEL] {
+                        let vary = if r.chance(1, 2) { 0 } else { 16 };
+                        let plan = r.u64();
+                        let (Some(c0), Some(c1)) = (
+                            call(&f, op, args, base, u64::MAX, plan, vary),
+                            call(&f, op, args, base | ClvmFlags::MALACHITE, u64::MAX, plan, vary),
+                        ) else {
+                            continue;
+                        };
+                        ctx.eval();
+                        ctx.count("directed_boundary_pairs");
+                        if c0.out.res.is_ok() {
+                            ctx.nontrivial(crate::util::case_key(&f, args, args, &[op.name.as_bytes(), &base.bits().to_le_bytes()[..]].concat()));
+                        }
+                        if !(c0.out.res.same_kind(&c1.out.res) && c0.result == c1.result) {
+                            let rec = call_record(&f, op, args, base, u64::MAX, &c0, 0);
+                            ctx.violation("malachite-differs", json!({"num_bigint": rec, "malachite": c1.out.res.to_json(),
+                                "malachite_result": c1.result.as_ref().map(hex::encode)}));
+                        }
+                    }
+                }
+            }
+        }
+    }
     let n = ctx.n(400_000, 60_000_000);
     let th = ctx.thorough();
     crate::random_cases!(ctx, n, |r, _i| {
